@@ -19,6 +19,7 @@ type papi[P any] struct {
 	gen    func() P
 	id     func() P
 	add    func(a, b P) P
+	neg    func(a P) P
 	raw    func(p P) []fe // projective / extended coordinates exactly as stored: X, Y, Z (, T)
 	comp   *format        // rule of the compressed form
 	uncomp *format
@@ -54,6 +55,7 @@ func runners() []runner {
 		out = append(out, mkRunner(&papi[*k256.Point]{
 			name: "k256", model: m, gen: c.Generator, id: c.OpIdentity,
 			add:  func(a, b *k256.Point) *k256.Point { return a.Add(b) },
+			neg:  func(a *k256.Point) *k256.Point { return a.Neg() },
 			raw:  func(p *k256.Point) []fe { return []fe{le1(p.V.X.Bytes()), le1(p.V.Y.Bytes()), le1(p.V.Z.Bytes())} },
 			comp: fmtSec1c, uncomp: fmtSec1u, cborInner: fmtSec1c,
 			fromCompressed: c.FromCompressed, fromUncompressed: c.FromUncompressed, fromBytes: c.FromBytes,
@@ -73,6 +75,7 @@ func runners() []runner {
 		out = append(out, mkRunner(&papi[*p256.Point]{
 			name: "p256", model: m, gen: c.Generator, id: c.OpIdentity,
 			add:  func(a, b *p256.Point) *p256.Point { return a.Add(b) },
+			neg:  func(a *p256.Point) *p256.Point { return a.Neg() },
 			raw:  func(p *p256.Point) []fe { return []fe{le1(p.V.X.Bytes()), le1(p.V.Y.Bytes()), le1(p.V.Z.Bytes())} },
 			comp: fmtSec1c, uncomp: fmtSec1u, cborInner: fmtSec1c,
 			fromCompressed: c.FromCompressed, fromUncompressed: c.FromUncompressed, fromBytes: c.FromBytes,
@@ -92,6 +95,7 @@ func runners() []runner {
 		out = append(out, mkRunner(&papi[*pasta.PallasPoint]{
 			name: "pallas", model: m, gen: c.Generator, id: c.OpIdentity,
 			add:  func(a, b *pasta.PallasPoint) *pasta.PallasPoint { return a.Add(b) },
+			neg:  func(a *pasta.PallasPoint) *pasta.PallasPoint { return a.Neg() },
 			raw:  func(p *pasta.PallasPoint) []fe { return []fe{le1(p.V.X.Bytes()), le1(p.V.Y.Bytes()), le1(p.V.Z.Bytes())} },
 			comp: fmtPastac, uncomp: fmtPastau, cborInner: fmtPastac,
 			fromCompressed: c.FromCompressed, fromUncompressed: c.FromUncompressed, fromBytes: c.FromBytes,
@@ -111,6 +115,7 @@ func runners() []runner {
 		out = append(out, mkRunner(&papi[*pasta.VestaPoint]{
 			name: "vesta", model: m, gen: c.Generator, id: c.OpIdentity,
 			add:  func(a, b *pasta.VestaPoint) *pasta.VestaPoint { return a.Add(b) },
+			neg:  func(a *pasta.VestaPoint) *pasta.VestaPoint { return a.Neg() },
 			raw:  func(p *pasta.VestaPoint) []fe { return []fe{le1(p.V.X.Bytes()), le1(p.V.Y.Bytes()), le1(p.V.Z.Bytes())} },
 			comp: fmtPastac, uncomp: fmtPastau, cborInner: fmtPastac,
 			fromCompressed: c.FromCompressed, fromUncompressed: c.FromUncompressed, fromBytes: c.FromBytes,
@@ -133,6 +138,7 @@ func runners() []runner {
 		out = append(out, mkRunner(&papi[*edwards25519.Point]{
 			name: "ed25519", model: m, gen: c.PrimeSubGroupGenerator, id: c.OpIdentity,
 			add:  func(a, b *edwards25519.Point) *edwards25519.Point { return a.Add(b) },
+			neg:  func(a *edwards25519.Point) *edwards25519.Point { return a.Neg() },
 			raw:  func(p *edwards25519.Point) []fe { return edRaw(&p.V.X, &p.V.Y, &p.V.Z, &p.V.T) },
 			comp: fmtEdc, uncomp: fmtEdu, cborInner: fmtEdc,
 			fromCompressed: c.FromCompressed, fromUncompressed: c.FromUncompressed, fromBytes: c.FromBytes,
@@ -150,6 +156,7 @@ func runners() []runner {
 		out = append(out, mkRunner(&papi[*edwards25519.PrimeSubGroupPoint]{
 			name: "ed25519-prime", model: m, gen: c.Generator, id: c.OpIdentity,
 			add:  func(a, b *edwards25519.PrimeSubGroupPoint) *edwards25519.PrimeSubGroupPoint { return a.Add(b) },
+			neg:  func(a *edwards25519.PrimeSubGroupPoint) *edwards25519.PrimeSubGroupPoint { return a.Neg() },
 			raw:  func(p *edwards25519.PrimeSubGroupPoint) []fe { return edRaw(&p.V.X, &p.V.Y, &p.V.Z, &p.V.T) },
 			comp: fmtEdc, uncomp: fmtEdu, cborInner: fmtEdc,
 			fromCompressed: c.FromCompressed, fromUncompressed: c.FromUncompressed, fromBytes: c.FromBytes,
@@ -166,6 +173,7 @@ func runners() []runner {
 		out = append(out, mkRunner(&papi[*curve25519.Point]{
 			name: "x25519", model: m, gen: c.PrimeSubGroupGenerator, id: c.OpIdentity,
 			add:  func(a, b *curve25519.Point) *curve25519.Point { return a.Add(b) },
+			neg:  func(a *curve25519.Point) *curve25519.Point { return a.Neg() },
 			raw:  func(p *curve25519.Point) []fe { return edRaw(&p.V.X, &p.V.Y, &p.V.Z, &p.V.T) },
 			comp: fmtMontc, uncomp: fmtMontu, cborInner: fmtMontu,
 			fromCompressed: c.FromCompressed, fromUncompressed: c.FromUncompressed, fromBytes: c.FromBytes,
@@ -181,6 +189,7 @@ func runners() []runner {
 		out = append(out, mkRunner(&papi[*curve25519.PrimeSubGroupPoint]{
 			name: "x25519-prime", model: m, gen: c.Generator, id: c.OpIdentity,
 			add:  func(a, b *curve25519.PrimeSubGroupPoint) *curve25519.PrimeSubGroupPoint { return a.Add(b) },
+			neg:  func(a *curve25519.PrimeSubGroupPoint) *curve25519.PrimeSubGroupPoint { return a.Neg() },
 			raw:  func(p *curve25519.PrimeSubGroupPoint) []fe { return edRaw(&p.V.X, &p.V.Y, &p.V.Z, &p.V.T) },
 			comp: fmtMontc, uncomp: fmtMontu, cborInner: fmtMontu,
 			fromCompressed: c.FromCompressed, fromUncompressed: c.FromUncompressed, fromBytes: c.FromBytes,
@@ -198,6 +207,7 @@ func runners() []runner {
 		out = append(out, mkRunner(&papi[*bls12381.PointG1]{
 			name: "bls-g1", model: m, gen: c.Generator, id: c.OpIdentity,
 			add:  func(a, b *bls12381.PointG1) *bls12381.PointG1 { return a.Add(b) },
+			neg:  func(a *bls12381.PointG1) *bls12381.PointG1 { return a.Neg() },
 			raw:  func(p *bls12381.PointG1) []fe { return []fe{le1(p.V.X.Bytes()), le1(p.V.Y.Bytes()), le1(p.V.Z.Bytes())} },
 			comp: fmtBlsc, uncomp: fmtBlsu, cborInner: fmtBlsc,
 			fromCompressed: c.FromCompressed, fromUncompressed: c.FromUncompressed, fromBytes: c.FromBytes,
@@ -222,6 +232,7 @@ func runners() []runner {
 		out = append(out, mkRunner(&papi[*bls12381.PointG2]{
 			name: "bls-g2", model: m, gen: c.Generator, id: c.OpIdentity,
 			add: func(a, b *bls12381.PointG2) *bls12381.PointG2 { return a.Add(b) },
+			neg:  func(a *bls12381.PointG2) *bls12381.PointG2 { return a.Neg() },
 			raw: func(p *bls12381.PointG2) []fe {
 				return []fe{f2raw(&p.V.X.U0, &p.V.X.U1), f2raw(&p.V.Y.U0, &p.V.Y.U1), f2raw(&p.V.Z.U0, &p.V.Z.U1)}
 			},
